@@ -666,6 +666,19 @@ theorem cols_in_grid_needed :
     (rowsColumns { cur := 1, seek := 1, held := some 1, toks := [.cell (some 100000) false true, .endData] }).1 = 100000 := by
   decide +kernel
 
+/-- **the same at full strength**: for EVERY iterator state and EVERY token sequence as the XML decoder
+delivers it — any `<row>` numbers, any text whatsoever in each `c/@r` (absent, garbage, overlong column names) —
+the row `Rows.Columns` builds is at most MaxColumns + tokens wide.  `ColsInGrid` is discharged by C20's
+`cell_decode_encode`: a reference `CellNameToCoordinates` accepts has its column inside the grid. -/
+theorem rows_columns_width_bounded (cur seek : Int) (held : Option Int) (raw : List RawTok) :
+    (rowsColumns { cur := cur, seek := seek, held := held, toks := toksOf raw }).1 ≤ Facts.MaxColumns + raw.length := by
+  have h := rows_columns_width_bounded_partial { cur := cur, seek := seek, held := held, toks := toksOf raw }
+    (by
+      intro c b v hm
+      obtain ⟨s, rw, hs⟩ := toksOf_col raw c b v hm
+      exact (XlModel.Props.C20.cell_decode_encode s c rw hs).2.1)
+  simpa only [toksOf_length] using h
+
 /-! ## every index taken from a struct field -/
 
 /-- the table of index / slice expressions of the read-side files whose index is a struct field — the
